@@ -6,8 +6,11 @@ Section Permute.
   Variable oid : Op -> Id.
   Variable apply : St -> Op -> St.
   Variable ready : St -> Op -> Prop.
-  Hypothesis ready_mono : forall s a b, oid a <> oid b -> ready s a -> ready s b -> ready (apply s a) b.
-  Hypothesis comm : forall s a b, oid a <> oid b -> ready s a -> ready s b ->
+  (* a state invariant (e.g. "all clocks below the wrap") under which the kernel lemmas hold *)
+  Variable good : St -> Prop.
+  Hypothesis good_step : forall s a, good s -> ready s a -> good (apply s a).
+  Hypothesis ready_mono : forall s a b, good s -> oid a <> oid b -> ready s a -> ready s b -> ready (apply s a) b.
+  Hypothesis comm : forall s a b, good s -> oid a <> oid b -> ready s a -> ready s b ->
       apply (apply s a) b = apply (apply s b) a.
 
   Fixpoint exec_ok (s : St) (l : list Op) : Prop :=
@@ -16,39 +19,41 @@ Section Permute.
     | a :: l' => ready s a /\ exec_ok (apply s a) l'
     end.
 
-  Lemma bubble b q : forall p s,
+  Lemma bubble b q : forall p s, good s ->
       ready s b -> ~ In (oid b) (map oid p) -> exec_ok s (p ++ b :: q) ->
       exec_ok s (b :: p ++ q) /\
       fold_left apply (p ++ b :: q) s = fold_left apply (b :: p ++ q) s.
   Proof.
-    induction p as [|a p IH]; intros s Hb Hnin Hex.
+    induction p as [|a p IH]; intros s Hg Hb Hnin Hex.
     - cbn in *. split; [exact Hex|reflexivity].
     - cbn [app exec_ok fold_left] in *. destruct Hex as [Ha Hex].
       assert (Hab : oid a <> oid b) by (intro E; apply Hnin; left; exact E).
       assert (Hnin' : ~ In (oid b) (map oid p)) by (intro E; apply Hnin; right; exact E).
       assert (Hb' : ready (apply s a) b) by (apply ready_mono; assumption).
-      destruct (IH (apply s a) Hb' Hnin' Hex) as [Hex' Hfold].
+      assert (Hg' : good (apply s a)) by (apply good_step; assumption).
+      destruct (IH (apply s a) Hg' Hb' Hnin' Hex) as [Hex' Hfold].
       cbn [exec_ok fold_left] in Hex', Hfold. destruct Hex' as [_ Hex'].
-      rewrite (comm s a b Hab Ha Hb) in Hex', Hfold.
+      rewrite (comm s a b Hg Hab Ha Hb) in Hex', Hfold.
       split.
       + split; [exact Hb|]. split; [apply ready_mono; auto|exact Hex'].
       + exact Hfold.
   Qed.
 
-  Theorem executable_permutations_agree : forall l2 l1 s,
+  Theorem executable_permutations_agree : forall l2 l1 s, good s ->
       NoDup (map oid l1) -> Permutation l1 l2 -> exec_ok s l1 -> exec_ok s l2 ->
       fold_left apply l1 s = fold_left apply l2 s.
   Proof.
-    induction l2 as [|b l2 IH]; intros l1 s Hnd Hp H1 H2.
+    induction l2 as [|b l2 IH]; intros l1 s Hg Hnd Hp H1 H2.
     - apply Permutation_sym, Permutation_nil in Hp. subst. reflexivity.
     - assert (Hin : In b l1) by (eapply Permutation_in; [apply Permutation_sym; exact Hp|left; reflexivity]).
       apply in_split in Hin. destruct Hin as [p [q ->]].
       cbn [exec_ok] in H2. destruct H2 as [Hb H2].
       assert (Hnin : ~ In (oid b) (map oid p)).
       { rewrite map_app in Hnd. cbn in Hnd. apply NoDup_remove_2 in Hnd. intro E. apply Hnd. apply in_or_app. left; exact E. }
-      destruct (bubble b q p s Hb Hnin H1) as [Hex Hfold].
+      destruct (bubble b q p s Hg Hb Hnin H1) as [Hex Hfold].
       rewrite Hfold. cbn [fold_left exec_ok] in *. destruct Hex as [_ Hex].
       apply IH.
+      + apply good_step; assumption.
       + rewrite map_app in *. cbn in Hnd. apply NoDup_remove_1 in Hnd. exact Hnd.
       + apply Permutation_sym. apply Permutation_cons_app_inv with (a := b).
         apply Permutation_sym. exact Hp.
